@@ -259,7 +259,53 @@ pub fn eval_case(ops: &[Op], drv: Option<&mut Drv>, pool: &Pool, rng: &mut Rng, 
     out
 }
 
+/// Systems that rely on the *provided* `System::setup` (the harness systems elsewhere override it in
+/// order to count): dynamic system data, `accessor()` overridden to hand out the instance's own accessor,
+/// an accessor type that also has a blank default (`try_new() = Some(..)`). The provided setup must use
+/// the accessor the system hands out: the data's setup hook then counts under the system's tag. One such
+/// system as an ordinary system, one as a thread-local system, one inside a batch.
+fn provided_setup_check(pool: &Pool) -> Vec<String> {
+    struct Plain(Acc);
+    impl<'a> System<'a> for Plain {
+        type SystemData = Data<'a>;
+        fn run(&mut self, _: Data<'a>) {}
+        fn accessor<'b>(&'b self) -> AccessorCow<'a, 'b, Self> {
+            AccessorCow::Ref(&self.0)
+        }
+    }
+    let shared = Shared::new(8);
+    let mk = |tag: usize| Plain(Acc { tag, decl_r: vec![(0, 0)], decl_w: vec![(1, tag as u64 % 4)], shared: shared.clone(), path: vec![], borrow: false });
+    let mut inner = new_builder(pool);
+    inner.add(mk(3), "in", &[]);
+    let core = CtlCore { tag: 4, n: 1, t: 3, shared: shared.clone(), path: vec![], iter: Default::default() };
+    let mut b = new_builder(pool);
+    b.add(mk(1), "plain", &[]);
+    b.add_batch(Ctl0(core), inner, "batch", &[]);
+    b.add_thread_local(mk(2));
+    let mut d = b.build();
+    let mut w = full_world();
+    let mut bad = vec![];
+    if let Err(p) = catch_unwind(AssertUnwindSafe(|| d.setup(&mut w))) {
+        bad.push(format!("Dispatcher::setup panicked: {}", panic_message(&p)));
+        return bad;
+    }
+    for (tag, what) in [(1usize, "an ordinary system"), (2, "a thread-local system"), (3, "a system inside a batch")] {
+        let n = shared.behav[tag].setups.load(SeqCst);
+        if n != 1 {
+            bad.push(format!("the setup hook of the system data of {} that relies on the provided System::setup ran {} times with the accessor that system hands out (1 expected: setup of every registered system, with its own accessor)", what, n));
+        }
+    }
+    bad
+}
+
 pub fn run(args: &Args, rep: &mut Report) {
+    if args.get("replay").is_none() {
+        let pool = make_pool(2);
+        for b in provided_setup_check(&pool) {
+            rep.violate("C13", "impl", "", format!("{} [provided-setup]", b), vec!["# provided-setup: self-contained, see harness/src/engines/lifecycle.rs provided_setup_check".into()]);
+        }
+        rep.count("dispatchers_of_systems_relying_on_the_provided_setup");
+    }
     let seed = args.num("seed", 1);
     let cases = args.num("cases", 200);
     let mut drv = Drv::spawn(&args.str("driver", "/verif/lean/.lake/build/bin/driver"));
